@@ -200,6 +200,9 @@ def run_random(cfg, seed, steps, weights=None, maxcmd=12, extra=None):
                 if item[0] == 'boot':
                     boot_phase(cl, rng, trace, state)
                     continue
+                if item[0] == 'oldreq':
+                    oldreq_phase(cl, rng, trace, state)
+                    continue
                 if item[0] == 'relead':
                     relead_phase(cl, rng, trace, state)
                     continue
@@ -418,6 +421,77 @@ def splitvote_phase(cl, rng, trace, state):
         for x in (A, B):
             while do(('Deliver', c, x)):
                 pass
+
+
+def oldreq_phase(cl, rng, trace, state):
+    """directed schedule (journal): the leader is killed and restarted (it knows no leader, what is forwarded to it waits in
+    its queue); a follower that still takes it for the leader forwards calls to it, is killed and restarted itself, and
+    forwards new calls - the first requests of its new process - once the old leader has been elected again; then the
+    leader works off its queue and answers the requests of the follower's previous process."""
+    N = cl.nodes
+
+    def do(act):
+        if cl.applicable(act):
+            trace.append(cl.step(act))
+            return True
+        return False
+    ids = sorted(n for n in N if N[n].alive and N[n].voter)
+    ls = [(N[n].obj.raftCurrentTerm, n) for n in ids if N[n].obj._isLeader()]
+    if not ls or len(ids) < 3:
+        return
+    L = max(ls)[1]
+    X = rng.choice([n for n in ids if n != L])
+    Z = [n for n in ids if n not in (L, X)]
+
+    def link(a, b):
+        for (i, j) in ((a, b), (b, a)):
+            do(('Notice', i, j))
+        do(('Connect', a, b))
+        while do(('Deliver', a, b)):
+            pass
+
+    def sub(n, k):
+        for _ in range(k):
+            state['ncmd'] += 1
+            do(('Submit', n, 'c%d' % state['ncmd'], {'kind': 'op'}))
+    do(('Crash', L)); do(('Restart', L))
+    do(('Notice', X, L))
+    link(X, L)
+    sub(X, rng.choice([2, 3]))
+    do(('Tick', X, 'z'))                       # forwarded to what it takes for the leader
+    while do(('Deliver', X, L)):
+        pass
+    do(('Crash', X)); do(('Restart', X))
+    do(('Notice', L, X))
+    link(X, L)
+    for z in Z:
+        do(('Notice', z, L)); link(z, L)
+        do(('Notice', z, X)); link(X, z)
+    for attempt in range(3):
+        do(('Tick', L, 'j'))                   # the old leader stands again
+        for z in Z + [X]:
+            while do(('Deliver', L, z)):
+                pass
+            while do(('Deliver', z, L)):
+                pass
+        if N[L].obj._isLeader():
+            break
+    while do(('Deliver', L, X)):               # the restarted follower learns who leads
+        pass
+    sub(X, rng.choice([2, 3]))
+    do(('Tick', X, 'z'))                       # the first requests of its new process
+    do(('Tick', L, 'z'))                       # the leader works off its queue: answers to the old process's requests
+    while do(('Deliver', L, X)):
+        pass
+    for r in range(3):                         # ... and what it appended is replicated, committed and applied
+        for n in ids:
+            do(('Tick', n, 'h'))
+        for _ in range(20):
+            chans = sorted((i, j) for (i, j), q in cl.net.chan.items() if q and j in N and N[j].alive)
+            if not chans:
+                break
+            for (i, j) in chans:
+                do(('Deliver', i, j))
 
 
 def relead_phase(cl, rng, trace, state):
